@@ -253,7 +253,7 @@ def key_wire(k):
 # ------------------------------------------------------------------------------------------
 
 HOSTILE = ['<i>', '</span>', '"><script>alert(1)</script>', '&amp;', '&', '-->', '<!--', ']]>', "'", '"',
-           '\n', '\x00', '\U0001F600', '<', '>', '</details>', '<td>', '</td></tr></table>', 'x" onmouseover="y',
+           '\n', '\x00', '\U0001F810', '<', '>', '</details>', '<td>', '</td></tr></table>', 'x" onmouseover="y',
            "x' onclick='y", '&lt;', '&#x27;', '&#60;', '<b', 'b>', '</', '<summary>', '<br>', '<img src=x>',
            '\t', '\r', 'é', ' ', '<![CDATA[', '&quot', ';', '=', '/', '`', '\\']
 PATHY = ['a.b', 'a[', ']', '[0]', '$', '.', '', ' ', 'a b', '[', 'x[1].y', '..']
@@ -526,7 +526,7 @@ def gen_xopts(rng, value):
   if keys and rng.chance(0.25):
     cc = []
     plain = [k for k in keys if isinstance(k, str) and k and not any(c in k for c in '.[]')]
-    # keys that are not plain names (int indices, path-like strings) hit finding F60; keep them rare
+    # keys that are not plain names (int indices, path-like strings) hit finding F81; keep them rare
     pool = keys if (rng.chance(0.08) or not plain) else plain
     for k in rng.sample(pool, rng.randint(1, min(2, len(pool)))) + (['__default__'] if rng.chance(0.3) else []):
       conf = {}
@@ -1264,7 +1264,7 @@ class C20(Prop):
     cc_nonplain = bool(cc) and any(not (isinstance(k, str) and k and not any(c in k for c in '.[]')) for k, _ in cc)
     if cc_nonplain and (not out.get('benign_ok') or out.get('new_tags') or out.get('new_attrs')
                         or not out.get('skeleton_equal', True)):
-      # F60: the entry is not applied to the hostile key but is applied to the twin's plain key
+      # F81: the entry is not applied to the hostile key but is applied to the twin's plain key
       return {'signature': 'child-config-key-not-a-plain-name:misapplied',
               'what': 'child_config keyed by an int index or a path-like string is applied differently than for a plain key'}
     if not out.get('benign_ok'):
